@@ -20,6 +20,7 @@ def run_judge(module, obs, workdir, parts=16, timeout=1500, cfg="Judge.cfg", env
     """Split the observations over `parts` TLC runs of spec/<module>.tla.  Every observation
     must carry a unique "id".  Returns (failures, stats): failures are dicts(id, clause, kf)."""
     os.makedirs(workdir, exist_ok=True)
+    known = tlc.merged_known()
     parts = max(1, min(parts, (len(obs) + 199) // 200))
     files = []
     for p in range(parts):
@@ -31,7 +32,7 @@ def run_judge(module, obs, workdir, parts=16, timeout=1500, cfg="Judge.cfg", env
         files.append(path)
 
     def one(path):
-        e = {"OBS_FILE": path, "KNOWN_FINDINGS": KNOWN_FILE}
+        e = {"OBS_FILE": path, "KNOWN_FINDINGS": known}
         e.update(env or {})
         r = tlc.run_tlc(module + ".tla", cfg, env=e, workers=1, timeout=timeout)
         v = tlc.parse_verdict(r["out"])
